@@ -8,6 +8,12 @@ use vstd::prelude::*;
 
 verus! {
 
+// std combinators a rewrite of the driver is likely to reach for: specified so that such a rewrite is *verified* against
+// the contracts (and fails them if it changes behaviour) instead of leaving the unit undecided
+pub assume_specification<T, E, F> [Result::<T, E>::or] (r: Result<T, E>, res: Result<T, F>) -> (out: Result<T, F>)
+    ensures out == (match r { Ok(v) => Ok::<T, F>(v), Err(_) => res });
+pub assume_specification<T> [Option::<T>::or] (o: Option<T>, optb: Option<T>) -> (out: Option<T>)
+    ensures out == (match o { Some(v) => Some(v), None => optb });
 pub assume_specification<T: Clone> [<[T]>::to_vec] (s: &[T]) -> (r: Vec<T>)
     ensures r@ == s@;
 
